@@ -34,6 +34,15 @@ def clEngine (args : List String) : String :=
     match pHex h with
     | some p => showFr (decodeFullReport p)
     | none => "bad-op"
+  | ["head", h] =>
+    match pHex h with
+    | some p =>
+      match decodeHead p with
+      | none => "panic"
+      | some .short => "short"
+      | some (.unsupported v) => s!"unsupported {v}"
+      | some (.supported _) => "supported"
+    | none => "bad-op"
   | ["fromreport", ver, price, bid, ask, obs, lu, st] =>
     match allNat [ver, obs, lu, st], allInt [price, bid, ask] with
     | some [ver, obs, lu, st], some [price, bid, ask] =>
